@@ -227,6 +227,8 @@ def _joined(arg: Term, sep_owner: Term) -> "list[tuple[str, Term]] | None":
         l = loc(x)
         if l[0] == "attr" and l[2] == "parts":
             out.append(("parts", l[1]))
+        elif x[0] == "mcall" and x[2] == "split" and len(x[3]) == 1 and x[3][0] in (("lib", "os.sep"), ("lib", "os.path.sep")) and (x[1][0] == "call" and x[1][1] == ("builtin", "str") or x[1][0] == "mcall" and x[1][2] == "as_posix"):
+            out.append(("parts", loc(x[1])))  # the text of a path split at the separator: its parts
         elif x[0] == "mcall" and x[2] == "split" and len(x[3]) == 1 and is_const(x[3][0], "."):
             sub = _tokens(x[1])  # the components of a dotted name
             if sub is None:
@@ -298,6 +300,38 @@ def show_dotted(segs: "list[tuple[str, Term]] | None") -> str:
     if segs is None:
         return "<not a dotted name>"
     return " . ".join(show_loc(v) if k == "item" else f"*{show_loc(v)}.parts" if k == "parts" else f"*{show(v)}" for k, v in segs)
+
+
+def alternatives(t: Term, limit: int = 8) -> list[tuple[Formula, Term]]:
+    """The guarded alternatives of a value, with choices nested in concatenations lifted to the top:
+    `a + <x if g | y if not g>` has the alternatives `a + x` (g) and `a + y` (not g)."""
+    t = unbox(t) if t[0] == "box" and t[3][0] in ("fstr", "binop") else t
+    if t[0] == "phi":
+        out: list[tuple[Formula, Term]] = []
+        for g, v in t[1]:
+            for g2, v2 in alternatives(v, limit):
+                h = f_and([g, g2])
+                if h != FALSE:
+                    out.append((h, v2))
+        return out if len(out) <= limit else [(g, v) for g, v in t[1]]
+    if t[0] == "fstr" or (t[0] == "binop" and t[1] == "+"):
+        parts = list(t[1]) if t[0] == "fstr" else [t[2], t[3]]
+        combos: list[tuple[Formula, list[Term]]] = [(TRUE, [])]
+        for p in parts:
+            alts = alternatives(p, limit)
+            new = []
+            for g, acc in combos:
+                for g2, v2 in alts:
+                    h = f_and([g, g2])
+                    if h != FALSE:
+                        new.append((h, acc + [v2]))
+            combos = new
+            if len(combos) > limit:
+                return [(TRUE, t)]
+        if len(combos) == 1:
+            return [(TRUE, t)]
+        return [(g, ("fstr", tuple(acc)) if t[0] == "fstr" else ("binop", "+", acc[0], acc[1])) for g, acc in combos]
+    return [(TRUE, t)]
 
 
 # --------------------------------------------------------------------------- guards
